@@ -22,7 +22,8 @@ from c10 import r_battery, r_cost, compare  # noqa: F401  (compare: by value, as
 engine.use_repo()
 
 PID = "S_PEAK_LOAD_WINDOW"
-THEOREM_MODULES = ["C04_PeakLoadWindow", "C05_PeakLoadWindow", "C09_PeakLoadWindow", "C11_PeakLoadWindow", "C17_PeakLoadWindow"]
+THEOREM_MODULES = ["C04_PeakLoadWindow", "C05_PeakLoadWindow", "C06_PeakLoadWindow", "C09_PeakLoadWindow", "C11_PeakLoadWindow",
+                   "C17_PeakLoadWindow"]
 CHUNK = 2
 BISECT_FUEL = 2200
 RULE = ("scenarios from the grammar in harness/scen.py for strategy peak_load_window (fixed load, generation, one or "
